@@ -9,7 +9,9 @@ import (
 	"net/http"
 	"net/http/httptest"
 	"os"
+	"sync"
 	"testing"
+	"time"
 )
 
 // TestVerifCaptureBodies drives the repository's own writer of the add-checkpoint
@@ -47,5 +49,36 @@ func TestVerifCaptureBodies(t *testing.T) {
 	o, _ := json.Marshal(got)
 	if err := os.WriteFile(out, o, 0o644); err != nil {
 		t.Fatal(err)
+	}
+	// Second pass: the same client value is shared by every feeder goroutine of cmd/feedbastion, so several
+	// Update calls are in flight at once. The server is slow to read, as a real bastion across a network is.
+	if cout := os.Getenv("VERIF_CAPTURE_CONCURRENT"); cout != "" {
+		var mu sync.Mutex
+		var got2 [][]byte
+		slow := httptest.NewServer(http.HandlerFunc(func(w http.ResponseWriter, r *http.Request) {
+			time.Sleep(2 * time.Millisecond)
+			body, _ := io.ReadAll(r.Body)
+			mu.Lock()
+			got2 = append(got2, body)
+			mu.Unlock()
+		}))
+		defer slow.Close()
+		bc2 := &bastionClient{httpClient: slow.Client(), url: slow.URL, originByLogID: map[string]string{}}
+		var wg sync.WaitGroup
+		const G = 8
+		for g := 0; g < G; g++ {
+			wg.Add(1)
+			go func(g int) {
+				defer wg.Done()
+				for i := g; i < len(cases); i += G {
+					_, _ = bc2.Update(context.Background(), "id", 0, cases[i].CP, cases[i].Proof)
+				}
+			}(g)
+		}
+		wg.Wait()
+		o2, _ := json.Marshal(got2)
+		if err := os.WriteFile(cout, o2, 0o644); err != nil {
+			t.Fatal(err)
+		}
 	}
 }
